@@ -30,6 +30,9 @@ def txn(rnd, with_fields=True, desc=None):
         t['date'] = d
     if with_fields or rnd.random() < .85:
         t['field'] = {'memo': rnd.choice(MEMOS), 'code': rnd.choice(CODES)}
+        if rnd.random() < .3:
+            # statement columns that happen to be called like a date part (a fiscal-year label, a weekday name): field.year / field.day are THOSE cells
+            t['field'].update({'year': rnd.choice(['FY25', 'fy24']), 'day': rnd.choice(['Sat', 'Mon'])})
     else:
         t['field'] = None
     return t
